@@ -75,7 +75,7 @@ type fn struct {
 	name     string
 	accesses []access
 	calls    []callsite
-	spawns   []string // functions started with `go`
+	spawns   []string                  // functions started with `go`
 	wgAdds   map[string]token.Position // sync.WaitGroup.Add calls in the body of this function, by receiver expression
 	wgDones  map[string]bool           // sync.WaitGroup.Done calls in the body of this function, by receiver expression
 }
